@@ -74,6 +74,9 @@ def gen_case(idx, items, kinds, idpos, filt, par):
         ent = "&|w, id| { let mut e = w.entry(mkid(id))?; e.query(%s).map(mk) }" % q
         lines.append("    run_query_case(ctx, &desc, %s, %s);" % (seq, ent))
     else:
+        lines.append("    struct P(std::sync::Mutex<Vec<Row>>, u64);")
+        lines.append("    impl brood::system::ParSystem for P { type Views<'a> = %s; type Filter = %s; type ResourceViews<'a> = view::Null; type EntryViews<'a> = view::Null;" % (vta, filt[0]))
+        lines.append("        fn run<'a, R, Q, I, E>(&mut self, qr: brood::query::Result<'a, R, Q, I, Self::ResourceViews<'a>, Self::EntryViews<'a>, E>) where R: brood::registry::ContainsViews<'a, Self::EntryViews<'a>, E>, I: ParallelIterator<Item = Self::Views<'a>> { self.1 += 1; let m = &self.0; qr.iter.for_each(|x| { let r = mk(x); m.lock().unwrap().push(r); }); } }")
         lines.append("    run_par_case(ctx, &desc, %s, &|w, consumer, rows| {" % seq)
         lines.append("        let it = w.par_query(%s).iter;" % q)
         lines.append("        match consumer {")
@@ -85,6 +88,7 @@ def gen_case(idx, items, kinds, idpos, filt, par):
         lines.append("            Consumer::TakeAny(k) => { let got = it.take_any(k).collect::<Vec<_>>(); rows.extend(got.into_iter().map(mk)); 0 }")
         lines.append("            Consumer::FindAny => { rows.extend(it.find_any(|_| true).map(mk)); 0 }")
         lines.append("            Consumer::TakeAnyCount(k) => it.take_any(k).count() as u64,")
+        lines.append("            Consumer::ParSystem => { drop(it); let mut p = P(std::sync::Mutex::new(Vec::new()), 0); w.run_par_system(&mut p); rows.extend(p.0.into_inner().unwrap()); p.1 }")
         lines.append("        }")
         lines.append("    });")
     lines.append("}")
@@ -241,11 +245,15 @@ def build_res():
                     "    struct S(Vec<u32>);",
                     "    impl System for S { type Views<'a> = view::Null; type Filter = filter::None; type ResourceViews<'a> = %s; type EntryViews<'a> = view::Null;" % vta,
                     "        fn run<'a, R, Q, I, E>(&mut self, qr: brood::query::Result<'a, R, Q, I, Self::ResourceViews<'a>, Self::EntryViews<'a>, E>) where R: brood::registry::ContainsViews<'a, Self::EntryViews<'a>, E>, I: Iterator<Item = Self::Views<'a>> { let result!(%s) = qr.resources; self.0 = vec![%s]; } }" % (pats, reads),
+                    "    struct P(Vec<u32>);",
+                    "    impl brood::system::ParSystem for P { type Views<'a> = view::Null; type Filter = filter::None; type ResourceViews<'a> = %s; type EntryViews<'a> = view::Null;" % vta,
+                    "        fn run<'a, R, Q, I, E>(&mut self, qr: brood::query::Result<'a, R, Q, I, Self::ResourceViews<'a>, Self::EntryViews<'a>, E>) where R: brood::registry::ContainsViews<'a, Self::EntryViews<'a>, E>, I: ParallelIterator<Item = Self::Views<'a>> { let result!(%s) = qr.resources; self.0 = vec![%s]; } }" % (pats, reads),
                     '    run_res_case(ctx, "%s", &[%s], &|w, path| match path {' % (label, ", ".join("(%d, %s)" % (i, "true" if m else "false") for i, m in views)),
                     "        0 => { let result!(%s) = w.view_resources::<%s, _>(); vec![%s] }" % (pats, vt, reads),
                     "        1 => { let res = w.query(Query::<view::Null, filter::None, %s>::new()); let result!(%s) = res.resources; vec![%s] }" % (vt, pats, reads),
                     "        2 => { let res = w.par_query(Query::<(&A, view::Null), filter::None, %s>::new()); let result!(%s) = res.resources; vec![%s] }" % (vt, pats, reads),
-                    "        _ => { let mut s = S(vec![]); w.run_system(&mut s); s.0 }",
+                    "        3 => { let mut s = S(vec![]); w.run_system(&mut s); s.0 }",
+                    "        _ => { let mut s = P(vec![]); w.run_par_system(&mut s); s.0 }",
                     "    });",
                     "}"])
                 cases.append((label, code))
